@@ -23,8 +23,9 @@ type c02Case struct {
 
 func init() {
 	mc.Register(&mc.Property{
-		ID:    "C02",
-		Level: "exploration",
+		ID:     "C02",
+		Word32: true,
+		Level:  "exploration",
 		Rule: "E1 bounded-exhaustive enumeration: every bitmap of B(n,0) ∪ B1(m) (as C01) plus long sparse bitmaps (exactly L words, all zero except ≤2-3 islands from a 10-word island alphabet of popcounts 1,2,31,32,33,63,64 at every combination of positions, L up to 70, thorough 130) a length sweep (every length 0..N words × 4 patterns, with every returned index re-checked after the next bitmap has been indexed) and the byte-lane sweep (every byte value in every lane under every 0x00/0xff configuration of the other lanes, deduplicated, embedded as [w], [0,w] and [^0,w,0,1]) " +
 			"× {IndexSelect32, IndexSelect32R64} and × every i in [0, ones) × {Select32, Select32R64}; oracle = list of 1-positions from a bit-by-bit scan. " +
 			"A case is one (bitmap, i, function) or (bitmap, index function); non-trivial when the bitmap has ≥2 ones and at least one 0. i ≥ ones is outside the statement and not called.",
